@@ -10,66 +10,39 @@ import ast
 
 from ..gen import EXTRA, Kernel, Untranslatable, find_for, guard_condition, register
 from ..pyexpr import ExprTr, emit_def, find_function, parse_file
+from . import c14_loop, c14_norm
 
 M = "direct/nn/mri_models.py"
 IMP = ("DirectVerif.Model.Recon", "DirectVerif.Model.C14Loop")
 TRACKED = {"curr_volume", "slice_counter", "volume_size", "last_filename", "filename", "output_abs"}
 
-_binds = {"slice_counter": "sc", "output_abs.shape[0]": "n", "volume_size": "vs"}
+_binds = {"slice_counter": "sc", "OUT.shape[0]": "n", "volume_size": "vs"}
 
 
 def _loop(fn: ast.FunctionDef) -> ast.For:
-    for st in fn.body:
-        if isinstance(st, ast.For) and "data_loader" in ast.unparse(st.iter):
-            return st
-    raise Untranslatable("loop over `data_loader` not found")
+    return c14_loop.find_loop(fn)
 
 
-def _write_stmt(fn) -> ast.Assign:
-    for st in _loop(fn).body:
-        if (isinstance(st, ast.Assign) and isinstance(st.targets[0], ast.Subscript)
-                and ast.unparse(st.targets[0].value) == "curr_volume"):
-            return st
-    raise Untranslatable("`curr_volume[...] = …` not found")
-
-
-def _write_slice(fn) -> ast.Slice:
-    st = _write_stmt(fn)
-    sl = st.targets[0].slice
-    if isinstance(sl, ast.Tuple) and len(sl.elts) == 2 and ast.unparse(sl.elts[1]) == "...":
-        sl = sl.elts[0]
-    if not isinstance(sl, ast.Slice) or sl.lower is None or sl.upper is None or sl.step is not None:
-        raise Untranslatable(f"unexpected write target `{ast.unparse(st.targets[0])}`")
-    if not ast.unparse(st.value).startswith("output_abs"):
-        raise Untranslatable(f"unexpected value written `{ast.unparse(st.value)}`")
-    return sl
+def _analysis(fn) -> "c14_loop.Loop":
+    """semantic reading of the loop (helpers inlined, locals resolved, roles abbreviated: OUT = what is written)"""
+    from ..gen import REPO
+    return c14_loop.Loop(fn, parse_file(REPO / M))
 
 
 def _lo(k, fn):
-    return emit_def(k.name, k.params, [], ExprTr(_binds).int(_write_slice(fn).lower))
+    return emit_def(k.name, k.params, [], ExprTr(_binds).int(_analysis(fn).write_slice()[0]))
 
 
 def _hi(k, fn):
-    return emit_def(k.name, k.params, [], ExprTr(_binds).int(_write_slice(fn).upper))
+    return emit_def(k.name, k.params, [], ExprTr(_binds).int(_analysis(fn).write_slice()[1]))
 
 
 def _counter(k, fn):
-    for st in _loop(fn).body:
-        if isinstance(st, ast.AugAssign) and ast.unparse(st.target) == "slice_counter":
-            fake = ast.BinOp(left=ast.Name(id="slice_counter"), op=st.op, right=st.value)
-            return emit_def(k.name, k.params, [], ExprTr(_binds).int(fake))
-    raise Untranslatable("`slice_counter += …` not found")
-
-
-def _yield_if(fn) -> ast.If:
-    for st in _loop(fn).body:
-        if isinstance(st, ast.If) and any(isinstance(n, ast.Yield) for n in ast.walk(st)):
-            return st
-    raise Untranslatable("`if …: yield` not found")
+    return emit_def(k.name, k.params, [], ExprTr(_binds).int(_analysis(fn).counter_next()))
 
 
 def _yield_cond(k, fn):
-    return emit_def(k.name, k.params, [], ExprTr(_binds).bool(_yield_if(fn).test), "Bool")
+    return emit_def(k.name, k.params, [], ExprTr(_binds).bool(_analysis(fn).yield_cond()), "Bool")
 
 
 register("C14", [
@@ -84,119 +57,20 @@ register("C14", [
 ])
 
 
-def _norm(node) -> str:
-    return ast.unparse(node).replace(" ", "") if not isinstance(node, str) else node.replace(" ", "")
-
-
-def _assigns(stmts, names=None) -> str:
-    """`name=value` of every simple assignment in `stmts` (sorted), restricted to tracked names"""
-    out = []
-    for st in stmts:
-        if isinstance(st, ast.Assign) and len(st.targets) == 1 and isinstance(st.targets[0], ast.Name):
-            n = st.targets[0].id
-            if n in (names or TRACKED):
-                out.append(f"{n}={_value(n, st.value)}")
-        elif isinstance(st, (ast.AugAssign,)) and isinstance(st.target, ast.Name) and st.target.id in TRACKED:
-            out.append(f"{st.target.id}{type(st.op).__name__}=")
-    return ";".join(sorted(out))
-
-
-def _value(name, v) -> str:
-    t = _norm(v)
-    if name == "curr_volume" and t.startswith("torch.zeros(*(volume_size,*output_abs.shape[1:])"):
-        return "torch.zeros(volume_size,*output_abs.shape[1:])"
-    return t
-
-
 def loop_stages(fn: ast.FunctionDef) -> list[str]:
-    loop = _loop(fn)
-    stages = []
-    # initial values before the loop
-    pre = []
-    for st in fn.body:
-        if st is loop:
-            break
-        pre.append(st)
-    stages.append("init[" + _assigns(pre, {"curr_volume", "slice_counter", "last_filename", "volume_size"}) + "]")
-    for st in loop.body:
-        if isinstance(st, ast.Assign) and len(st.targets) == 1 and isinstance(st.targets[0], ast.Name):
-            n, v = st.targets[0].id, st.value
-            t = _norm(v)
-            if n == "filename":
-                stages.append(f"filename={ast.unparse(v)}")
-            elif n == "scaling_factors":
-                stages.append(f"scaling_factors={ast.unparse(v)}")
-            elif n == "iteration_output" and t.startswith("self._do_iteration(data,"):
-                stages.append("forward=self._do_iteration(data)")
-            elif n == "output":
-                stages.append(f"output={ast.unparse(v)}")
-            elif n == "output_abs":
-                if isinstance(v, ast.Call) and ast.unparse(v.func) == "_process_output" and len(v.args) >= 2:
-                    stages.append(f"output_abs=_process_output({ast.unparse(v.args[0])}, {ast.unparse(v.args[1])})")
-                else:
-                    stages.append(f"output_abs={ast.unparse(v)}")
-            elif n in TRACKED:
-                stages.append(f"assign:{n}={t}")
-        elif isinstance(st, ast.Assign) and isinstance(st.targets[0], ast.Subscript) \
-                and ast.unparse(st.targets[0].value) == "curr_volume":
-            stages.append("write curr_volume[lo:hi]=" + ("output_abs" if _norm(st.value) in ("output_abs", "output_abs.cpu()")
-                                                         else _norm(st.value)))
-        elif isinstance(st, ast.AugAssign) and isinstance(st.target, ast.Name) and st.target.id in TRACKED:
-            stages.append(f"{st.target.id}+=" if isinstance(st.op, ast.Add) else f"assign:{st.target.id}")
-        elif isinstance(st, ast.If):
-            ys = [n for n in ast.walk(st) if isinstance(n, ast.Yield)]
-            if ys:
-                # the tuple yielded when add_target is false: (curr_volume, <losses>, filename)
-                y = ys[0].value
-                if isinstance(y, ast.IfExp):
-                    y = y.orelse
-                if not isinstance(y, ast.Tuple):
-                    raise Untranslatable("unexpected yield value")
-                stages.append(f"if yield_cond[yield {ast.unparse(y.elts[0])},{ast.unparse(y.elts[-1])}]")
-                extra = _assigns([s for s in st.body if not isinstance(s, ast.Expr)])
-                if extra:
-                    stages.append("assign-in-yield:" + extra)
-            else:
-                a = _assigns(st.body + st.orelse)
-                if a:
-                    stages.append(f"if {ast.unparse(st.test)}[{a}]")
-        else:
-            for sub in ast.walk(st):
-                if isinstance(sub, ast.Name) and isinstance(sub.ctx, (ast.Store, ast.Del)) and sub.id in TRACKED:
-                    stages.append(f"assign:{sub.id}")
-    return stages
+    """semantic facts of the volume part of the loop (c14_loop.Loop.stage_facts)"""
+    return _analysis(fn).stage_facts()
+
+
+def _is_logging(st) -> bool:
+    return isinstance(st, ast.Expr) and isinstance(st.value, ast.Call) and \
+        ast.unparse(st.value.func).startswith(("logger.", "self.logger.", "torch.cuda.", "logging."))
 
 
 def process_stages(fn: ast.FunctionDef) -> list[str]:
-    out = []
-    for st in fn.body:
-        if isinstance(st, ast.Expr):
-            continue
-        if isinstance(st, ast.If):
-            body = []
-            for s in st.body:
-                if isinstance(s, ast.Assign) and ast.unparse(s.targets[0]) == "data":
-                    body.append("data=" + _pvalue(s.value))
-            out.append(f"if {ast.unparse(st.test)}[{';'.join(body)}]")
-        elif isinstance(st, ast.Assign) and ast.unparse(st.targets[0]) == "data":
-            out.append("data=" + _pvalue(st.value))
-        elif isinstance(st, ast.Return):
-            if ast.unparse(st.value) != "data":
-                out.append("return " + ast.unparse(st.value))
-        else:
-            out.append("other:" + type(st).__name__)
-    return out
-
-
-def _pvalue(v) -> str:
-    t = _norm(v)
-    if t.startswith("data*scaling_factors.view(-1,*(1,)*(len(data.shape)-1))"):
-        return "data*scaling_factors.view(-1,ones)"
-    if t == "T.modulus_if_complex(data,complex_axis=complex_axis)":
-        return "T.modulus_if_complex(data)"
-    if t == "T.center_crop(data,resolution).contiguous()":
-        return "T.center_crop(data, resolution)"
-    return ast.unparse(v)
+    """`_process_output` as a decision tree over (scaling factors given?, rank 3/4?, resolution given?): what is returned"""
+    from ..gen import REPO
+    return c14_norm.decision_tree(fn.body, parse_file(REPO / M), ignore=_is_logging)
 
 
 # ---- phase 2: outlines of the plumbing functions -----------------------------------------------------
@@ -259,8 +133,13 @@ def _outline_if(st: ast.If, ind, kw, keep):
 
 
 def predict_facts(tree) -> list[str]:
+    """what `Engine.predict` returns, with its temporaries resolved: one nested expression"""
     fn = find_function(tree, "Engine.predict")
-    return outline(fn.body, keep={"batch_sampler", "data_loader", "output"})[-4:]
+    env = c14_norm.local_env(fn.body, fn)
+    rets = [st for st in fn.body if isinstance(st, ast.Return)]
+    if len(rets) != 1 or rets[0].value is None:
+        raise Untranslatable("expected exactly one top-level return in Engine.predict")
+    return ["return " + c14_norm.norm_expr(rets[0].value, env, tree)]
 
 
 def loader_facts(tree) -> list[str]:
@@ -268,25 +147,70 @@ def loader_facts(tree) -> list[str]:
     calls = [n for n in ast.walk(fn) if isinstance(n, ast.Call) and ast.unparse(n.func) == "DataLoader"]
     if len(calls) != 1 or calls[0].args:
         raise Untranslatable("expected exactly one keyword-only `DataLoader(...)` call")
+    rets = [n for n in ast.walk(fn) if isinstance(n, ast.Return)]
+    env = c14_norm.local_env(fn.body, fn)
+    if len(rets) != 1 or c14_norm.norm_expr(rets[0].value, env, tree) != c14_norm.norm_expr(calls[0], env, tree):
+        raise Untranslatable("build_loader does not return the DataLoader it builds")
     return sorted(f"{k.arg}={ast.unparse(k.value)}" for k in calls[0].keywords)
 
 
 def dispatch_facts(tree) -> list[str]:
-    return outline(find_function(tree, "Engine.build_batch_sampler").body)
+    return c14_norm.decision_tree(find_function(tree, "Engine.build_batch_sampler").body, tree, ignore=_is_logging)
 
 
 def resolution_facts(tree) -> list[str]:
-    out = outline(find_function(tree, "_compute_resolution").body)
-    rv = find_function(tree, "MRIModelEngine.reconstruct_volumes")
-    for st in _loop(rv).body:
-        if isinstance(st, ast.Assign) and ast.unparse(st.targets[0]) == "resolution":
-            out.append("call resolution=" + ast.unparse(st.value))
-    return out
+    return c14_norm.decision_tree(find_function(tree, "_compute_resolution").body, tree, ignore=_is_logging)
 
 
 def writer_facts(tree) -> list[str]:
+    """`write_output_to_h5`: per tuple of `output` — which file is opened in which mode, what is stored under which key"""
     fn = find_function(tree, "write_output_to_h5")
-    out = outline(fn.body)
+    out = []
+    loops = [st for st in fn.body if isinstance(st, ast.For)]
+    if len(loops) != 1:
+        raise Untranslatable("expected one loop over `output`")
+    loop = loops[0]
+    for st in fn.body:
+        if st is loop:
+            break
+        if isinstance(st, ast.If):
+            out += [f"before the loop, if {c14_norm.norm_expr(st.test)}: {c14_norm.norm_expr(s.value)}" for s in st.body
+                    if isinstance(s, ast.Expr) and not _is_logging(s)]
+        elif not isinstance(st, ast.Expr):
+            out.append("before the loop: " + ast.unparse(st)[:80])
+    # the element of `output` bound per iteration (an `enumerate` counter is only used for logging)
+    it, tgt = loop.iter, loop.target
+    if isinstance(it, ast.Call) and ast.unparse(it.func) == "enumerate" and isinstance(tgt, ast.Tuple) and len(tgt.elts) == 2:
+        it, tgt = it.args[0], tgt.elts[1]
+    out.append(f"for {ast.unparse(tgt)} in {ast.unparse(it)}")
+    env = {}
+    for st in loop.body:
+        if _is_logging(st):
+            continue
+        if isinstance(st, ast.Assign) and len(st.targets) == 1 and isinstance(st.targets[0], ast.Name):
+            n = st.targets[0].id
+            cnt = c14_norm.assigned_names(fn).get(n, 0)
+            if cnt == 1:
+                env[n] = st.value                       # a temporary (e.g. the output path): substituted where used
+            else:
+                out.append(f"  {n}={c14_norm.norm_expr(st.value, env, tree)}")
+        elif isinstance(st, ast.If):
+            for s in st.body:
+                if isinstance(s, ast.Assign):
+                    out.append(f"  if {c14_norm.norm_expr(st.test, env, tree)}: "
+                               f"{ast.unparse(s.targets[0])}={c14_norm.norm_expr(s.value, env, tree)}")
+                elif not _is_logging(s):
+                    out.append(f"  if {c14_norm.norm_expr(st.test, env, tree)}: {ast.unparse(s)[:80]}")
+            if st.orelse:
+                out.append("  else: " + ast.unparse(st.orelse[0])[:80])
+        elif isinstance(st, ast.With):
+            out.append("  with " + ", ".join(c14_norm.norm_expr(i.context_expr, env, tree) for i in st.items))
+            out += ["    " + c14_norm.norm_expr(s.value, env, tree) if isinstance(s, ast.Expr) else "    " + ast.unparse(s)[:80]
+                    for s in st.body if not _is_logging(s)]
+        elif isinstance(st, (ast.Continue, ast.Break, ast.Return)):
+            out.append("  " + type(st).__name__.lower())
+        else:
+            out.append("  other: " + ast.unparse(st)[:80])
     names = [a.arg for a in fn.args.args]
     defaults = dict(zip(names[len(names) - len(fn.args.defaults):], fn.args.defaults))
     for k in ("output_key", "create_dirs_if_needed", "volume_processing_func"):
